@@ -1,5 +1,5 @@
 """C06 - TypedValue/TypedStore are transparent, error-faithful typed views."""
-from lib.units import SeqUnit
+from lib.units import McUnit, SeqUnit
 
 
 def units(ctx):
@@ -8,6 +8,15 @@ def units(ctx):
         # store call of the operation can fail (outcome plan in the stimulus)
         SeqUnit("typed", "TypedValue", traces=(80, 100), thorough_traces=(800, 150)),
         SeqUnit("typed", "TypedStore", traces=(80, 100), thorough_traces=(800, 150)),
+    ]
+    # negative control: the model of the defect hive.go had (Compute swallowing the encode error)
+    # must violate the property - shows the invariants / action properties are not vacuous
+    us.append(McUnit("typed", "TypedValue", cfgkind="defect", name="TypedValue:defect-control", expect="any"))
+    # thorough tier: the action properties on the next size up (the <M>.thorough.cfg used by SeqUnit
+    # for the bigger LTS cannot carry VIEW/PROPERTIES, so the exhaustive run has its own cfg)
+    us += [
+        McUnit("typed", "TypedValue", cfgkind="mcthorough", thorough_only=True),
+        McUnit("typed", "TypedStore", cfgkind="mcthorough", thorough_only=True),
     ]
     # --- interleaving part (concurrent Compute/Set/Delete are serialised): added below ---
     return us
